@@ -51,6 +51,7 @@ def job(args):
     r = random.Random('c12/%d/%d' % (seed, k))
     p = G.Profile()
     p.layout_defaults = True
+    p.fwd_of_defined = (k % 2 == 1)
     p.matlab_safe = (k % 2 == 0)
     if k % 3 == 0:
         p.max_type_depth, p.max_ns_depth = 5, 4
